@@ -24,3 +24,33 @@ Theorem C07_refines : forall ip6 handler mw up ip fp (reads : list (list str)),
   flat (run ip6 handler mw up ip fp init [ERead [concat (concat reads)]]).
 Proof. exact Server_proofs.refines. Qed.
 Print Assumptions C07_refines.
+
+(* ---- the same theorems about the code: `gen_run` / `gen_final` / `gen_step` / `cl_data_received` are the connection's
+   transition function assembled from the translation of /repo/src/nauyaca/server/protocol.py (coq/Gen/ServerGen.v,
+   regenerated from the working tree on every run; event dispatch in coq/Equiv/ServerLoop.v).  `reenc_ok` is the one
+   assumed fact about CPython's lenient UTF-8 decoder (satisfiable: EquivServerLoop.reenc_ok_satisfiable). ---- *)
+From NV Require Import Prelude.Utf8 Equiv.ServerGlue Gen.ServerGen Equiv.ServerLoop.
+From NV Require Equiv.EquivServerLoop Proofs.Server_on_code.
+Theorem C07_at_most_once_on_code : forall reenc : str -> str,
+  EquivServerLoop.reenc_ok reenc ->
+  forall ip6 handler mw up ip fp evs,
+  Spec.C07.at_most_once (gen_run reenc ip6 handler mw up ip fp init evs) = true.
+Proof. exact Server_on_code.at_most_once_on_code. Qed.
+Print Assumptions C07_at_most_once_on_code.
+
+Theorem C07_trailing_ignored_on_code : forall reenc : str -> str,
+  EquivServerLoop.reenc_ok reenc ->
+  forall ip6 handler mw up ip fp s d,
+  line_rcvd s = true -> await_titan s = false ->
+  cl_data_received reenc ip6 handler mw up ip fp s d = (set_buf s (buf s ++ d) true, []).
+Proof. exact Server_on_code.trailing_ignored_on_code. Qed.
+Print Assumptions C07_trailing_ignored_on_code.
+
+Theorem C07_refines_on_code : forall reenc : str -> str,
+  EquivServerLoop.reenc_ok reenc ->
+  forall ip6 handler mw up ip fp (reads : list (list str)),
+  flat (gen_run reenc ip6 handler mw up ip fp init (map ERead reads)) =
+  flat (gen_run reenc ip6 handler mw up ip fp init [ERead [concat (concat reads)]]).
+Proof. exact Server_on_code.refines_on_code. Qed.
+Print Assumptions C07_refines_on_code.
+
